@@ -54,6 +54,7 @@ type EffViolation struct {
 	Prov      Prov
 	Detail    string
 	Path      string // call path from the root
+	Instr     ssa.Instruction
 }
 
 // ExtCall records a call that leaves the analysed scope.
@@ -254,7 +255,7 @@ func (e *Explorer) report(c *clone, in ssa.Instruction, kind, target string, p P
 		e.Viol[key].Prov |= p
 		return
 	}
-	e.Viol[key] = &EffViolation{Kind: kind, Fn: c.fn, Construct: key, Pos: in.Pos(), Prov: p, Detail: detail, Path: e.path(c)}
+	e.Viol[key] = &EffViolation{Kind: kind, Fn: c.fn, Construct: key, Pos: in.Pos(), Prov: p, Detail: detail, Path: e.path(c), Instr: in}
 }
 
 func (e *Explorer) undecided(c *clone, in ssa.Instruction, kind, target string, p Prov, detail string) {
@@ -262,7 +263,7 @@ func (e *Explorer) undecided(c *clone, in ssa.Instruction, kind, target string, 
 	if _, ok := e.Undecided[key]; ok {
 		return
 	}
-	e.Undecided[key] = &EffViolation{Kind: kind, Fn: c.fn, Construct: key, Pos: in.Pos(), Prov: p, Detail: detail, Path: e.path(c)}
+	e.Undecided[key] = &EffViolation{Kind: kind, Fn: c.fn, Construct: key, Pos: in.Pos(), Prov: p, Detail: detail, Path: e.path(c), Instr: in}
 }
 
 // describeAddr gives a position-independent description of a written location.
@@ -1011,4 +1012,56 @@ func (e *Explorer) extCall(c *clone, site ssa.Instruction, name string, args []s
 	default:
 		setRes(Fresh)
 	}
+}
+
+// IdentityAppend recognises append(a, b...) where, on every incoming edge, a and b are
+// adjacent sub-slices s[x:j] and s[j:y] of the same slice s (or both nil): the append
+// then rewrites the elements of s[j:y] with the values they already hold, so it cannot
+// change any value (it is still a write as far as data races are concerned).
+func IdentityAppend(in ssa.Instruction) bool {
+	call, ok := in.(*ssa.Call)
+	if !ok {
+		return false
+	}
+	b, ok := call.Call.Value.(*ssa.Builtin)
+	if !ok || b.Name() != "append" || len(call.Call.Args) != 2 {
+		return false
+	}
+	seen := map[[2]ssa.Value]bool{}
+	var pairOK func(a, b ssa.Value) bool
+	pairOK = func(a, b ssa.Value) bool {
+		k := [2]ssa.Value{a, b}
+		if seen[k] {
+			return true
+		}
+		seen[k] = true
+		if isNilConst(a) && isNilConst(b) {
+			return true
+		}
+		pa, ok1 := a.(*ssa.Phi)
+		pb, ok2 := b.(*ssa.Phi)
+		if ok1 && ok2 {
+			if pa.Block() != pb.Block() || len(pa.Edges) != len(pb.Edges) {
+				return false
+			}
+			for i := range pa.Edges {
+				if !pairOK(pa.Edges[i], pb.Edges[i]) {
+					return false
+				}
+			}
+			return true
+		}
+		sa, ok1 := a.(*ssa.Slice)
+		sb, ok2 := b.(*ssa.Slice)
+		if !ok1 || !ok2 {
+			return false
+		}
+		return sa.X == sb.X && sa.High != nil && sb.Low != nil && sa.High == sb.Low && sa.Max == nil
+	}
+	return pairOK(call.Call.Args[0], call.Call.Args[1])
+}
+
+func isNilConst(v ssa.Value) bool {
+	c, ok := v.(*ssa.Const)
+	return ok && c.Value == nil
 }
